@@ -67,6 +67,7 @@ fn seqx_property(id: &str, tier: Tier) -> i32 {
         Tier::Thorough => (780.0, 5_000_000),
     };
     let out = props::run_suites(&rep, &suites, deadline, cap);
+    let extra = props::extra_cases(id, &rep);
     if out.stats.outcomes.len() < 2 || out.stats.programs < 2 {
         mc_kit::machinery_error("vacuous exploration: fewer than 2 distinct outcomes");
     }
@@ -85,6 +86,7 @@ fn seqx_property(id: &str, tier: Tier) -> i32 {
         "exhaustive": !out.stats.capped,
         "caps": if out.stats.capped { "a per-program node cap or the wall-clock deadline cut some history trees; see per-suite 'capped'" } else { "none hit: every history tree was enumerated to exhaustion or to its depth bound" },
         "samples": out.samples,
+        "dedicated_cases": extra,
     });
     rep.finish(
         "model_checking",
@@ -262,6 +264,27 @@ fn main() {
         Some("dev") => {
             dev(&args[1..]);
             0
+        }
+        Some("canary") => {
+            let mut errs = vec![];
+            if let Err(e) = props::canary() {
+                errs.push(e);
+            }
+            if let Err(e) = sched::canary() {
+                errs.push(e);
+            }
+            if let Err(e) = timers::canary() {
+                errs.push(e);
+            }
+            if errs.is_empty() {
+                println!("mc-core canaries: seqx, sched and timers oracles all reject their deliberately wrong input");
+                0
+            } else {
+                for e in errs {
+                    eprintln!("CANARY FAILED: {e}");
+                }
+                2
+            }
         }
         Some("C18") => timers_property(tier),
         Some("C08") => sched_property(tier, mc_kit::arg_value(&args, "--only")),
